@@ -168,7 +168,7 @@ def run(ctx):
         "split_disjoint_nodes is not named by the statement; it is driven and judged like preprocess_ts because its "
         "record_provenance argument is documented the same way"]
     fns = sc.ALL_MODEL_FNS
-    steps = generate(ctx, "c33_j12", max_calls=2, fns=fns, rec_modes=["on", "off"], nopts=2 if q else 4)
+    steps = generate(ctx, "c33_j12", max_calls=2, fns=fns, rec_modes=["on", "off"], nopts=2 if q else 3)
     ctx.count("histories", len(steps))
     ctx.exhaustive = True
     ts0 = history_input(ctx.seed)
@@ -178,7 +178,7 @@ def run(ctx):
         linear_sessions(ctx, steps, ts0, events, meta, 10 if q else 60)
     # the default (record_provenance not passed) and longer histories: simulated behaviours
     sim = generate(ctx, "c33_sim", max_calls=3 if q else 4, fns=fns, rec_modes=["on", "off", "default"], nopts=4,
-                   simulate=40 if q else 500)
+                   simulate=40 if q else 300)
     ctx.count("simulated_history_steps", len(sim))
     replay_tree(ctx, sim, ts0, events, meta, "simulated")
     if not q:
